@@ -17,6 +17,9 @@ func RaceStep(tier string, seed int64) ([]string, map[string]any) {
 	bin := filepath.Join(VerifDir, "build", fmt.Sprintf("verifrace.%d", os.Getpid()))
 	build := exec.Command("go", "build", "-race", "-tags", "verif", "-o", bin, "./cmd/verifrace")
 	build.Dir = filepath.Join(VerifDir, "harness")
+	if h := os.Getenv("VERIF_HARNESS"); h != "" {
+		build.Dir = h
+	}
 	if out, err := build.CombinedOutput(); err != nil {
 		Fatal("cannot build the race-detector runner: %v\n%s", err, tail(string(out), 30))
 	}
